@@ -435,6 +435,11 @@ func (x *exec) round(rep *sim.Replica, f *fault, randStep uint64) (rr roundResul
 		}
 	}
 	rr.Panics = verifrt.TakePanics()
+	// tracker and importer share one clock: whatever time the round took on the importer's side
+	// (simulated retry and rate-limit waits) has passed on the tracker too
+	if clk := x.t.Clk(); *clk < rep.Wall {
+		*clk = rep.Wall
+	}
 	var fired1 int
 	rr.Requests, fired1 = x.srv.round()
 	sort.Strings(rr.Requests)
